@@ -1,3 +1,4 @@
+pub mod c01;
 pub mod c02;
 pub mod c03;
 pub mod c04;
@@ -6,8 +7,10 @@ pub mod c07;
 pub mod c08;
 pub mod c09;
 pub mod c11;
+pub mod c12;
 pub mod c13;
 pub mod c14;
+pub mod c20;
 
 use crate::infra::{CheckResult, Ctx};
 use serde_json::Value as J;
@@ -15,6 +18,7 @@ use serde_json::Value as J;
 /// dispatch: run the check for ctx.prop (or replay one case of it)
 pub fn run(ctx: &Ctx, replay: Option<&J>) -> Option<CheckResult> {
     Some(match ctx.prop.as_str() {
+        "C01" => c01::run(ctx, replay),
         "C02" => c02::run(ctx, replay),
         "C03" => c03::run(ctx, replay),
         "C04" => c04::run(ctx, replay),
@@ -24,8 +28,10 @@ pub fn run(ctx: &Ctx, replay: Option<&J>) -> Option<CheckResult> {
         "C08" => c08::run(ctx, replay),
         "C09" => c09::run(ctx, replay),
         "C11" => c11::run(ctx, replay),
+        "C12" => c12::run(ctx, replay),
         "C13" => c13::run(ctx, replay),
         "C14" => c14::run(ctx, replay),
+        "C20" => c20::run(ctx, replay),
         _ => return None,
     })
 }
